@@ -2,8 +2,11 @@ import json,sys
 pid=sys.argv[1]
 props={json.loads(l)['id']:json.loads(l) for l in open('/verif/properties.jsonl')}
 p=props[pid]
-wt=f"/tmp/wtb_{pid}"
-out=f"/tmp/benign_out/{pid}"
+rnd=sys.argv[2] if len(sys.argv)>2 else "1"
+wt=f"/tmp/wtb_{pid}" if rnd=="1" else f"/tmp/wtb{rnd}_{pid}"
+out=f"/tmp/benign_out/{pid}" if rnd=="1" else f"/tmp/benign_out{rnd}/{pid}"
+STYLE2 = "" if rnd=="1" else """
+  STYLE FOR THIS ROUND - be bolder than pure renaming, but stay strictly behaviour-preserving: (i) replace an index loop by enumerate / zip (or back), a flag-and-break loop by any() / all() / next() / for-else (or back), a `while` by a `for`; (ii) split a long function into two or three private helpers (module-level or methods) that receive what they need as arguments, or merge a trivial helper into its only caller; (iii) hoist an expression that is computed several times into a local, or inline a local that is used once; (iv) replace an if/elif chain over constants by an equivalent one in another order of the (mutually exclusive) tests, or guard clauses instead of nesting; (v) build a list with a comprehension, `list(map(...))`, `extend`, or `+` instead of repeated append (or back), copy with `list(x)` / `x[:]` / `x.copy()` interchangeably; (vi) tuple-unpack instead of indexing, f-strings in messages, `is not None` ordering, parenthesisation, chained comparisons `a <= x <= b` vs `a <= x and x <= b`. Floating-point results must stay bit-identical: do not reassociate arithmetic or swap numeric library functions."""
 print(f"""You are helping to test a verification tool for robustness. Work ONLY inside the git worktree {wt} (a checkout of the library tier4/autoware_perception_evaluation, package under {wt}/perception_eval/perception_eval) and write your deliverables under {out}/ . Do not read or touch /repo or /verif, and do not look for any verification tooling.
 
 The library satisfies this property, and it must KEEP satisfying it:
@@ -16,7 +19,7 @@ Your task: produce THREE different, independent BEHAVIOUR-PRESERVING refactoring
   - rename local variables / loop variables consistently, reorder independent statements, introduce or remove temporaries;
   - restructure control flow without changing it (early return instead of else, merged or split conditions that are logically equivalent, `elif` chains, a conditional expression turned into if/else or back, De Morgan);
   - extract a small private helper function (or inline one), replace a loop by an equivalent comprehension (or back), `x += y` vs `x = x + y` on numbers, keyword vs positional arguments, reordered keyword arguments, `a > b` written as `b < a`;
-  - add type hints, docstrings, logging/debug statements, assertions that always hold.
+  - add type hints, docstrings, logging/debug statements, assertions that always hold.{STYLE2}
 Do NOT change behaviour in any way: same results, same exceptions, same mutation (or non-mutation) of inputs, same handling of None / empty / zero, same iteration order. If in doubt, leave it.
 
 For each refactoring k = 1, 2, 3 deliver in {out}/k/ :
